@@ -13,7 +13,13 @@ RULE = ('cases = (predictor-free query from the typed SQL model over tables livi
         'on one sqlite3 engine with both integrations ATTACH-ed; observed = the emitted plan steps carried out by the '
         'reference interpreter (fetch / sub-select / join / query / union ... by their documented meaning) on sqlite3; '
         'compared as multisets, order-aware under ORDER BY, validity predicate under LIMIT without a total order; '
-        'non-trivial = >= 2 fetches from different integrations and a non-empty ground truth or a non-empty join')
+        'non-trivial = >= 2 fetches from different integrations and a non-empty ground truth or a non-empty join; '
+        'dedicated shapes next to the model: LIMIT chains, outer-join chains, nested CTEs, star over a sub-select, selects '
+        'from an api-type integration (catalog api-int2), sub-selects in GROUP BY / HAVING / ORDER BY / ON, IN (set '
+        'operation), correlated sub-selects over the other integration, CTE names (case, scope; catalog default-int1); '
+        'before a plan is interpreted, steps that cannot be carried out whatever the data are reported '
+        '(static_defects: a fetch that names a table or alias the integration does not have, a set operation over '
+        'results, a column that the fetched select list does not return)')
 ASSUMPTIONS = ['step semantics are read from the docstrings of planner/steps.py and from how the planner\'s own tests '
                'use the steps; the real executor lives in another repository',
                'sqlite3 is the reference engine on both sides; data domains are tiny by design',
@@ -21,7 +27,8 @@ ASSUMPTIONS = ['step semantics are read from the docstrings of planner/steps.py 
                'result is the executor\'s business)']
 FLOORS = {'quick': {'__nontrivial__': 500, 'multi-place': 3000, 'judged': 4000, 'plan:fetch:semijoin-filter': 500,
                     'plan:joinstep:FULL JOIN': 200, 'plan:joinstep:LEFT JOIN': 200, 'tag:limit': 300, 'tag:group': 300,
-                    'tag:sub:in': 100, 'tag:setop:UNION': 50},
+                    'tag:sub:in': 100, 'tag:setop:UNION': 50, 'catalog:api-int2': 150, 'tag:shape:clause-subselect': 60,
+                    'tag:shape:in-setop': 50, 'tag:shape:correlated': 30, 'tag:shape:cte-name': 30},
           'thorough': {'__nontrivial__': 6000, 'multi-place': 20000, 'judged': 20000}}
 N = {'quick': 900, 'thorough': 8000}
 PLACES = {'t1': 'int1', 't2': 'int1', 't3': 'int2', 't4': 'int2'}
